@@ -217,7 +217,8 @@ impl<'a> Packet<'a> {
     pub fn encode(&self, buffer: &mut [u8], protocol_id: u64, crypto_info: Option<(u64, &[u8; 32])>) -> Result<usize, NetcodeError> {
         if matches!(self, Packet::ConnectionRequest { .. }) {
             let mut writer = io::Cursor::new(buffer);
-            let prefix_byte = encode_prefix(self.id(), 0);
+            // Connection requests are not encrypted and carry no sequence: the prefix is the packet type alone
+            let prefix_byte = self.id();
             writer.write_all(&prefix_byte.to_le_bytes())?;
 
             self.write(&mut writer)?;
@@ -365,7 +366,9 @@ fn sequence_bytes_required(sequence: u64) -> usize {
         mask >>= 8;
     }
 
-    0
+    // The sequence is always written with at least one byte (as in the netcode standard),
+    // so that every encrypted packet has the minimum size required when decoding.
+    1
 }
 
 fn write_sequence(out: &mut impl io::Write, seq: u64) -> Result<usize, io::Error> {
